@@ -41,9 +41,9 @@ def run(ck, ctx):
     # ---- O-lex-prefix: a name that merely BEGINS like a keyword (arrays, Index_Data, primary_id_seq ...) is an identifier wherever a
     # plain name is one: in every lexer configuration the fragments reach with a plain name (table / column / constraint positions,
     # REFERENCES targets, ALTER / INDEX targets, sequence and entity names)
-    exs += run_fragments(ck, ctx, [dict(module="alter", only_rules={"O-accept"}, build_kw=dict(tier=ck.tier, judge=False)),
-                                   dict(module="sequence", only_rules={"O-accept"}, build_kw=dict(tier=ck.tier)),
-                                   dict(module="entities", only_rules={"O-accept"}, build_kw=dict(tier=ck.tier))])
+    exs += run_fragments(ck, ctx, [dict(module="alter", only_rules=set(), build_kw=dict(tier=ck.tier, judge=False)),
+                                   dict(module="sequence", only_rules=set(), build_kw=dict(tier=ck.tier)),
+                                   dict(module="entities", only_rules=set(), build_kw=dict(tier=ck.tier))])
     visited = set()
     for ex in exs:
         visited |= ex.visited_lex
